@@ -162,6 +162,10 @@ def df_menu():
     add("slice", "rows", lambda d, a: d.slice(rows=list(range(d.nrow))[::-1]))
     add("slice", "all", lambda d, a: d.slice())
     add("slice", "cols", lambda d, a: d.slice(cols=[1, 0]))
+    add("slice", "cols as int64 array", lambda d, a: d.slice(cols=a[0]), "idx")
+    add("slice", "rows as int64 array", lambda d, a: d.slice(rows=a[0][a[0] < d.nrow] if d.nrow else a[0][:0]), "idx")
+    add("slice_off", "cols as int64 array", lambda d, a: d.slice_off(cols=a[0]), "idx")
+    add("slice_off", "cols as Vector", lambda d, a: d.slice_off(cols=di.Vector(a[0])), "idx")
     add("slice_off", "rows", lambda d, a: d.slice_off(rows=[0] if d.nrow else []))
     add("slice_off", "none", lambda d, a: d.slice_off())
     add("head", "n", lambda d, a: d.head(2))
@@ -392,8 +396,13 @@ def check_case(case, rec):
         r = case["rows"]
 
         def build():
-            return V.frame(operand_cols(r)), [V.frame(operand_cols(max(r, 2), shift=1)) for _ in range(nargs)]
-        run_call(rec, f"DataFrame.{case['method']}", label, build, fn, case)
+            recv = V.frame(operand_cols(r))
+            if case.get("grouped"):
+                recv.group_by("i")  # the mark stays on the object; a method returning a new object must not clear or change it
+            if nargs == "idx":
+                return recv, [np.array([-1, 0], dtype="int64")]
+            return recv, [V.frame(operand_cols(max(r, 2), shift=1)) for _ in range(nargs)]
+        run_call(rec, f"DataFrame.{case['method']}" + (" [grouped receiver]" if case.get("grouped") else ""), label, build, fn, case)
     elif case.get("part") == "vec":
         menu = vec_menu()[case["method"]]
         label, fn, kinds = next(x for x in menu if x[0] == case["label"])
@@ -411,6 +420,8 @@ def run_shard(shard, rec):
     if shard["part"] == "df":
         for label, fn, nargs in df_menu()[shard["method"]]:
             check_case({"part": "df", "method": shard["method"], "label": label, "rows": shard["rows"]}, rec)
+            if shard["method"] not in ("aggregate", "modify"):
+                check_case({"part": "df", "method": shard["method"], "label": label, "rows": shard["rows"], "grouped": True}, rec)
         rec.sample({"part": "df", "method": shard["method"], "rows": shard["rows"], "labels": [x[0] for x in df_menu()[shard["method"]]][:6]})
     elif shard["part"] == "vec":
         for name, entries in sorted(vec_menu().items()):
